@@ -75,6 +75,20 @@ func (b *c05broker) deliver(v *verifrt.T, p *event.State) {
 	}
 }
 
+// full is what the gossip library gets when it asks the broker for its complete state (the
+// periodic exchange and every newly established link call Swarm.Gossip); nil = nothing to send
+func (b *c05broker) full() *event.State {
+	g := b.swarm.Gossip()
+	if g == nil {
+		return nil
+	}
+	st, ok := g.(*event.State)
+	if !ok || st == nil {
+		return nil
+	}
+	return st.VerifClone()
+}
+
 // does broker b forward messages for ssid to peer `name`
 func (b *c05broker) routes(ssid message.Ssid, name mesh.PeerName) int {
 	n := 0
@@ -169,7 +183,7 @@ func VerifC05Pair(v *verifrt.T) {
 	n := v.Bound("steps")
 	for i := 0; i < n; i++ {
 		c05clock += 1 + int64(v.U8("dt", i))
-		switch v.Choice(6, "step", i) {
+		switch v.Choice(7, "step", i) {
 		case 0: // a client of B subscribes
 			k := v.Choice(2, "conn", i)
 			if !live[k] {
@@ -194,13 +208,21 @@ func VerifC05Pair(v *verifrt.T) {
 		case 4: // A loses B (garbage collection of the peer) and tells the cluster
 			a.swarm.onPeerOffline(2)
 		case 5: // periodic full-state gossip B -> A
-			a.deliver(v, b.swarm.state.VerifClone())
+			if f := b.full(); f != nil {
+				a.deliver(v, f)
+			}
+		case 6: // B's periodic gossip goes to another neighbour this time (or is lost on the way to A)
+			_ = b.full()
 		}
 	}
 	// quiescence: full state both ways, twice
 	for r := 0; r < 2; r++ {
-		a.deliver(v, b.swarm.state.VerifClone())
-		b.deliver(v, a.swarm.state.VerifClone())
+		if f := b.full(); f != nil {
+			a.deliver(v, f)
+		}
+		if f := a.full(); f != nil {
+			b.deliver(v, f)
+		}
 	}
 	v.Reach("quiescent")
 	want := live[0] || live[1]
@@ -283,11 +305,15 @@ func VerifC05Relay(v *verifrt.T) {
 				next++
 			}
 		case 4: // periodic full state B -> A, relayed likewise
-			relay(b.swarm.state.VerifClone())
+			if f := b.full(); f != nil {
+				relay(f)
+			}
 		}
 	}
 	// quiescence: B's full state reaches A (relayed), then A's full state reaches C
-	relay(b.swarm.state.VerifClone())
+	if f := b.full(); f != nil {
+		relay(f)
+	}
 	want := live[0] || live[1]
 	// C has heard nothing but A's relayed deltas so far: they alone carry everything
 	if want {
@@ -295,7 +321,9 @@ func VerifC05Relay(v *verifrt.T) {
 	} else {
 		v.Assert(c.routes(ssid, 2) == 0, "C05.relay.deltas-alone-remove-the-route")
 	}
-	c.deliver(v, a.swarm.state.VerifClone())
+	if f := a.full(); f != nil {
+		c.deliver(v, f)
+	}
 	v.Reach("relay-quiescent")
 	for _, x := range []*c05broker{a, c} {
 		got := x.routes(ssid, 2)
